@@ -20,7 +20,7 @@ ASSUMPTIONS = ["'never iterates forever' is decided in its bounded form: a solve
                "stopping-ness and absorbing finals are decided by the oracle's MEC test, never assumed from the generator"]
 TIMEOUT = 1800
 TABLE = [("G-DEAD", 900), ("G-CYC", 600), ("G-SLOW", 150), ("G-ACY", 500), ("G-LEX", 200), ("G-TIE", 150), ("G-TINY", 200),
-         ("G-CUT", 300), ("G-TINYB", 300), ("G-INIT0F", 200), ("G-NOREACH", 200), ("G-ACYNF", 200), ("G-CYCNF", 150), ("G-INIT0NF", 100), ("G-AUXFAST", 40), ("G-MIX", 500), ("G-SMALLX", 400)]
+         ("G-CUT", 300), ("G-TINYB", 300), ("G-INIT0F", 200), ("G-NOREACH", 200), ("G-ACYNF", 200), ("G-CYCNF", 150), ("G-INIT0NF", 100), ("G-AUXFAST", 40), ("G-MIX", 500), ("G-SMALLX", 400), ("G-VSLOW", 4), ("G-HALF", 60), ("G-LATE", 60)]
 
 
 def gen_cut(rng):
@@ -185,8 +185,57 @@ def decide_split_only(gd, idx, cls, an):
     return res
 
 
+def decide_edit(idx, seed):
+    """The caller solves a description, edits its transition lists IN PLACE (same list objects) so that the initial state gains or
+    loses its way to the final states, and solves it again with a fresh game object: the second solve must be the solve of the
+    edited description (anything remembered from the first one - by identity, or by equality with a live reference - is stale)."""
+    import copy
+    rng = games.case_rng(seed, PID, "G-EDIT", idx)
+    gd = None
+    for _ in range(50):
+        gd = games.gen_class(rng, rng.choice(["G-ACY", "G-CYC", "G-DEAD"]))
+        if gd is None:
+            continue
+        an = analysis.Analysis(gd)
+        if an.stopping and an.finals_absorbing and 0 in an.W and not an.g.absorbing(0):
+            break
+        gd = None
+    if gd is None:
+        return sc.skipped(idx, "generator gave up")
+    g = an.g
+    sinks = [s for s in range(g.n) if g.absorbing(s) and s not in g.finals]
+    desc = games.to_solver(gd)
+    if not sinks:
+        desc["rewards"].append(0); desc["players"].append("Probabilistic"); desc["transition_list"].append([(1, len(desc["players"]) - 1)])
+        sinks = [len(desc["players"]) - 1]
+    z = sinks[0]
+    row0 = desc["transition_list"][0]
+    good = list(row0)
+    cut = [(a, z) for a, _ in good]                 # same labels / probabilities, every move of state 0 now leads to the sink
+    order = idx % 2                                  # 0: unsolvable first, then solvable ; 1: the other way round
+    res = {"idx": idx, "verdict": "held", "stats": {"edit_sequences": 1}, "tags": ["G-EDIT"], "key": "edit%d" % idx, "nontrivial": True}
+    tad = monitors.mods()["tad"]
+    limit = sc.limit_for(an)
+    problems = []
+    for step, rows in enumerate([cut, good] if order == 0 else [good, cut]):
+        row0[:] = rows                                # in-place edit of the caller's own inner list
+        want_solvable = rows is good
+        out = monitors.observed_solve(desc, True, limit)            # first: the caller's own (edited) lists
+        ref = monitors.observed_solve(copy.deepcopy(desc), True, limit)
+        if (out.status, out.result, out.msg) != (ref.status, ref.result, ref.msg):
+            problems.append({"mode": "prune", "problem": "after an in-place edit of the description, solving it differs from solving a deep copy of it (step %d)" % step,
+                             "got": out.brief(), "reference": ref.brief()})
+        if want_solvable and out.status == "nosol":
+            problems.append({"mode": "prune", "problem": "'no solution' raised although the initial state's value is positive (after an in-place edit)"})
+        if not want_solvable and out.status == "ok":
+            problems.append({"mode": "prune", "problem": "game solved although the initial state's reachability value is 0 (after an in-place edit)"})
+    if problems:
+        res.update(verdict="violated", what="%s (%s)" % (problems[0]["problem"], problems[0]["mode"]), witness=problems[:3], case={"edit": idx, "seed": seed})
+    return res
+
+
 def plan(tier, seed):
-    return sc.plan_classes(tier, TABLE)
+    return sc.plan_classes(tier, TABLE) + harness.split("G-EDIT", 200 if tier == "quick" else 2000, 50)
 
 
 def _gen(batch, idx):
@@ -201,6 +250,9 @@ def run_batch(batch):
     monitors.MON.flags.update(alias=False)
     for idx in range(batch["start"], batch["start"] + batch["count"]):
         EMIT_START(idx)
+        if batch["cls"] == "G-EDIT":
+            yield decide_edit(idx, batch["seed"])
+            continue
         gd = _gen(batch, idx)
         if gd is None:
             yield sc.skipped(idx, "generator gave up")
@@ -210,6 +262,8 @@ def run_batch(batch):
 
 def replay(case):
     monitors.install()
+    if "edit" in case:
+        return decide_edit(case["edit"], case.get("seed", 0))
     return decide(games.dec_game(case["game"]), 0, "REPLAY")
 
 
